@@ -728,7 +728,8 @@ impl<'a> R<'a> {
         } else {
             self.block_value(t, -1, true, false);
         }
-        if self.ch.flag() {
+        // 0-3 document-end marker lines (a run of markers still ends one document)
+        for _ in 0..self.ch.pick(4) {
             self.out.push_str("...");
             self.eol();
         }
@@ -760,18 +761,18 @@ pub fn render(ts: &[T], ch: &mut Ch) -> Rendering {
     if r.ch.flag() {
         r.out.push_str("%YAML 1.2\n---");
         r.block_value(&dts[0], -1, false, false);
-        if dts.len() > 1 {
-            // a following document needs no marker unless it has directives; keep it simple
-            if r.ch.flag() {
-                r.out.push_str("...\n");
-            }
-        } else if r.ch.flag() {
+        // (a following document needs no marker unless it has directives)
+        for _ in 0..r.ch.pick(4) {
             r.out.push_str("...\n");
         }
         for t in dts.iter().skip(1) {
             r.doc(t, false);
         }
     } else {
+        // a document-end marker may come before any document
+        if r.ch.flag() {
+            r.out.push_str("...\n");
+        }
         if r.ch.flag() {
             r.out.push_str("# leading comment\n");
         }
